@@ -41,6 +41,9 @@ EXTRA_TRANSFORMS = [
     ("true $OUT", [], "ignore"),
     # programs that WRITE to their $IN argument although --in-place / --no-copy is not given: they must be working
     # on the private copy, whatever the permissions of the scanned file are (sed -i replaces the file by rename)
+    # programs that die of a signal after writing part of their output (helper scripts put on PATH by run_case)
+    ("selfterm", [], "signalled"), ("selfint $IN", [], "signalled"), ("selfhup $IN", ["--no-copy"], "signalled"),
+    ("selfkill $IN", [], "signalled"), ("selfterm-out $OUT", [], "signalled"),
     ("sed -i s/a/b/g $IN", [], "writes-copy"),
     ("truncate -s 1 $IN", [], "writes-copy"),
     ("chmod 600 $IN", [], "writes-copy"),
@@ -148,6 +151,16 @@ def run_case(case):
         env = gen.cfg_env(cfg)
         outdir = os.path.join(rd.base, "outdir")
         os.makedirs(outdir)
+        bindir = os.path.join(rd.base, "bin")
+        os.makedirs(bindir)
+        for nm_, sig_ in (("selfterm", "TERM"), ("selfint", "INT"), ("selfhup", "HUP"), ("selfkill", "KILL")):
+            with open(os.path.join(bindir, nm_), "w") as f_:
+                f_.write('#!/bin/sh\nif [ -n "$1" ]; then head -c 7 "$1"; else head -c 7; fi\nkill -%s $$\nsleep 5\n' % sig_)
+            os.chmod(os.path.join(bindir, nm_), 0o755)
+        with open(os.path.join(bindir, "selfterm-out"), "w") as f_:
+            f_.write('#!/bin/sh\nprintf abc > "$1"\nkill -TERM $$\nsleep 5\n')
+        os.chmod(os.path.join(bindir, "selfterm-out"), 0o755)
+        env = dict(env, PATH=bindir + ":/usr/local/bin:/usr/bin:/bin")
         traces = []
         program_writes = case.get("tclass") == "writes-in"
 
@@ -169,7 +182,7 @@ def run_case(case):
                 if d:
                     V("tree-unchanged", "%s: scanned tree differs: %s" % (tag, d[:6]), res)
             left = os.listdir(rd.tmp)
-            if left and not res.timed_out and res.rc in (0, 1):
+            if left and not res.timed_out:       # however fclones ends on its own account, its temporary files must be gone
                 V("temp-files-gone", "%s: TMPDIR not empty after the run: %s" % (tag, left[:5]), res)
             stray = [p for p in os.listdir(rd.home)]
             if stray:
